@@ -100,6 +100,8 @@ def ref(cls, t, C):
         return "vS%sSlice(%s)" % (T, ref(cls, t[1], C))
     if k == "dur" and OVER.get("dur") and cls == "eq":
         return "vSEqDur"
+    if k == "seq" and OVER.get("importord") and cls == "eq":
+        return "vSEqSeq(%s, %s)" % (ref("eq", t[1], C), ref("ord", t[1], C))
     if k in ("slice", "seq", "opt", "ptr", "map"):
         inner = ref(cls, t[1], C)
         ig = gotype(t[1])
@@ -168,6 +170,8 @@ def candidates(t):
         return [("Slice", True, False)] + candidates(t[1])
     if k == "dur" and OVER.get("dur"):
         return [(OVER["dur"], True, False)]
+    if k == "seq" and OVER.get("importord"):
+        return [("Seq", True, False)] + candidates(t[1])
     if k in ("slice", "seq", "opt", "ptr", "map"):
         return candidates(t[1])
     if k == "named":
@@ -246,9 +250,12 @@ import (
 	"github.com/csgura/fp/lazy"
 	"github.com/csgura/fp/monoid"
 	"github.com/csgura/fp/ord"
+	"github.com/csgura/fp/seq"
 )
 
 //go:generate go run github.com/csgura/fp/cmd/gombok
+
+var _ = seq.Sort[int]
 
 var _ time.Duration
 var _ other.Plain
@@ -389,6 +396,17 @@ def special_structs():
     return s, ["AuditP", "DocP", "Xleaf", "XPlain", "XRec", "Yleaf", "YPlain", "YRec", "Node", "Tree", "Big", "Pair", "Phantom", "Leaf", "Holder", "Prec", "PrecM", "W21", "W22", "P22", "Mixed", "Holder2", "Rev", "UsesPair", "WithEmpty", "Blob"]
 
 
+def import_structs():
+    """the package of README 7: @fp.ImportGiven of ord, a local EqSeq that needs Ord[T], a generic struct using it and a struct
+    using that generic struct"""
+    s = {}
+    s["Bag"] = dict(name="Bag", fields=[("items", ("seq", ("tparam", "T"))), ("n", ("int",))], classes=["eq"], value=True, tparams=["T"])
+    s["UsesBag"] = dict(name="UsesBag", fields=[("b", ("struct", "Bag", (("int",),))), ("tags", ("seq", ("string",))), ("ms", ("seq", ("named", "MyInt"))), ("bs", ("struct", "Bag", (("string",),)))],
+                        classes=["eq"], value=True, tparams=[])
+    s["Flat"] = dict(name="Flat", fields=[("xs", ("seq", ("int",))), ("o", ("opt", ("seq", ("int",))))], classes=["eq"], value=False, tparams=[])
+    return s, ["Bag", "UsesBag", "Flat"]
+
+
 def override_structs():
     """structs for the packages that declare local instances for library / composite types (slices, time.Duration)"""
     s = {}
@@ -404,8 +422,21 @@ def inst_args(st, cls, C):
         return "", ""
     used = [p for p in st["tparams"] if any(needs_instance(cls, t, p) for _, t in st["fields"])]
     targs = "[" + ", ".join("int" for _ in st["tparams"]) + "]"
-    iargs = ", ".join(ref(cls, ("int",), C) for _ in used)
-    return targs, iargs
+    args = []
+    for p in used:
+        args.append(ref(cls, ("int",), C))
+        # the overriding EqSeq also needs an Ord of the element type: one more instance argument for that parameter
+        if cls == "eq" and OVER.get("importord") and any(under_seq(t, p) for _, t in st["fields"]):
+            args.append(ref("ord", ("int",), C))
+    return targs, ", ".join(args)
+
+
+def under_seq(t, p, inside=False):
+    if t[0] == "tparam":
+        return inside and t[1] == p
+    if len(t) > 1 and isinstance(t[1], tuple):
+        return under_seq(t[1], p, inside or t[0] == "seq")
+    return False
 
 
 def needs_instance(cls, t, p):
@@ -468,7 +499,24 @@ OVER_DUR = '''
 // a local instance for time.Duration under its %(form)s name: durations are equal when they agree modulo 10ns
 var Eq%(name)s fp.Eq[time.Duration] = eq.New(func(a, b time.Duration) bool { vHit("Eq%(name)s"); return a%%10 == b%%10 })
 '''
+OVER_IMPORT = '''
+// instances of ord are visible while deriving eq (README 7)
+// @fp.ImportGiven
+var _ ord.Derives[fp.Ord[any]]
+
+// EqSeq overrides eq.Seq and asks for an Ord of the element type, which only the import above can supply:
+// sequences are equal when they are equal as multisets
+func EqSeq[T any](eqT fp.Eq[T], ordT fp.Ord[T]) fp.Eq[fp.Seq[T]] {
+	return eq.New(func(a, b fp.Seq[T]) bool {
+		vHit("EqSeq")
+		return eq.Seq(eqT).Eqv(seq.Sort(a, ordT), seq.Sort(b, ordT))
+	})
+}
+'''
 SILENT_OVER = '''
+func vSEqSeq[T any](eqT fp.Eq[T], ordT fp.Ord[T]) fp.Eq[fp.Seq[T]] {
+	return eq.New(func(a, b fp.Seq[T]) bool { return eq.Seq(eqT).Eqv(seq.Sort(a, ordT), seq.Sort(b, ordT)) })
+}
 func vSEqSlice[T any](e fp.Eq[T]) fp.Eq[[]T] { return eq.New(func(a, b []T) bool { return len(a) == len(b) }) }
 func vSCloneSlice[T any](c fp.Clone[T]) fp.Clone[[]T] { return clone.Slice(c) }
 var vSEqDur fp.Eq[time.Duration] = eq.New(func(a, b time.Duration) bool { return a%10 == b%10 })
@@ -490,8 +538,10 @@ def _go_source(pkg, structs, order):
         out.append(OVER_SLICE)
     if OVER.get("dur"):
         out.append(OVER_DUR % dict(name=OVER["dur"], form="short" if OVER["dur"] == "Duration" else "package-qualified"))
+    if OVER.get("importord"):
+        out.append(OVER_IMPORT)
     reg = ["package %s\n" % pkg, 'import (\n\t"time"\n\n\t"scratch/other"\n\n\t"github.com/csgura/fp"\n\t"github.com/csgura/fp/clone"\n\t"github.com/csgura/fp/eq"\n'
-           '\t"github.com/csgura/fp/hash"\n\t"github.com/csgura/fp/lazy"\n\t"github.com/csgura/fp/monoid"\n\t"github.com/csgura/fp/ord"\n)\n',
+           '\t"github.com/csgura/fp/hash"\n\t"github.com/csgura/fp/lazy"\n\t"github.com/csgura/fp/monoid"\n\t"github.com/csgura/fp/ord"\n\t"github.com/csgura/fp/seq"\n)\nvar _ = seq.Sort[int]\n',
            "var _ time.Duration\nvar _ = lazy.Done[int]\nvar _ = clone.Given[int]\nvar _ = hash.String\nvar _ = ord.Given[int]\nvar _ = eq.String\nvar _ = monoid.String\nvar _ fp.Unit\nvar _ other.Plain\n",
            "func vCounters() map[string]int {\n\tm := map[string]int{}\n\tfor k, v := range vUsed {\n\t\tm[k] = v\n\t}\n\tfor k, v := range other.Used {\n\t\tm[k] = v\n\t}\n\treturn m\n}\n",
            "var vRegistry = []vEntry{}\nvar vIfaceValues = []any{}\n",
@@ -551,7 +601,11 @@ def _go_source(pkg, structs, order):
             cands = sorted(set(c for c in cands if c[0] != "Int" or cls == "monoid"))
             fields = ['name: "%s"' % name, 'cls: "%s"' % cls, "nfields: %d" % len(inst), "%s: %s" % (cls, call), "counters: vCounters",
                       "shallow: %s" % ("true" if st.get("shallow") else "false"),
-                      "cands: []vCand{%s}" % ", ".join('{"%s", %s, %s}' % (c[0], str(c[1]).lower(), str(c[2]).lower()) for c in cands)]
+                      "cands: []vCand{%s}" % ", ".join('{"", "%s", %s, %s}' % (c[0], str(c[1]).lower(), str(c[2]).lower()) for c in cands)]
+            if cls == "eq" and OVER.get("importord"):
+                # the Ord instances of the element types below a Seq
+                also = sorted(set(c for c in cands if c[0] not in ("Seq", "Int")))
+                fields.append("also: []vCand{%s}" % ", ".join('{"ord", "%s", %s, %s}' % (c[0], str(c[1]).lower(), str(c[2]).lower()) for c in also))
             if need_eq:
                 fields.append("refEq: vRefEq_%s" % rn)
                 fields.append("refEqVec: vRefEqVec_%s" % rn)
@@ -586,6 +640,8 @@ def cands_deep(cls, t, structs, seen):
         if cls == "monoid" and k in ("slice", "seq", "map"):
             return []       # MergeSlice / MergeSeq / MergeGoMap take no element instance
         own = [("Slice", True, False)] if (k == "slice" and OVER.get("slice") and cls in ("eq", "clone")) else []
+        if k == "seq" and OVER.get("importord") and cls == "eq":
+            own = [("Seq", True, False)]
         return own + cands_deep(cls, t[1], structs, seen)
     if k == "dur":
         return candidates(t) if cls == "eq" else []
